@@ -20,6 +20,7 @@ u.extract(CV, 'enum FinalTy', keep_derives={'Clone', 'Copy'})
 u.extract(CV, 'struct NumberType', keep_derives={'Clone', 'Copy'})
 u.shim('final_tables.rs')
 u.raw('pub struct FunctionCompiler { pub builder: FunctionBuilder, pub ptr_ty: types::Type }')
+u.spec('defs.rs')
 u.spec('spec.rs')
 u.trusted += [
     'Cranelift instruction semantics as specified in shims/verus/clif.rs (from the Cranelift instruction reference)',
@@ -51,6 +52,8 @@ CAST_PRE = '''
             ==> lang_cast_ok(cast_from, cast_to, val.den@, res.den@),
         (cast_from.float && !cast_to.float && cast_to.ty.bits_ == 128 && fits64(cast_to, ftrunc(val.den@->Float_f)))
             ==> lang_cast_ok(cast_from, cast_to, val.den@, res.den@),
+        // a cast only computes: no store, no load, no call, no branch
+        pure_ext(*old(builder), *final(builder)),
 '''
 u.extract(M, 'fn cast_num', contract=CAST_PRE, inserts=[('@body_start', 'after', '''
     proof {
@@ -84,6 +87,7 @@ u.extract(M, 'fn cast_ty_to_cranelift', contract='''
             res.den@ == (Den::Int { bits: cast_to.bits_ as nat,
                                     val: tc(cast_to.bits_ as nat, int_value(tfinal(*cast_from.0)->Number_0, val.den@)) }),
         !(tfinal(*cast_from.0) is Number) ==> res == val,
+        pure_ext(*old(builder), *final(builder)),
 ''')
 
 u.extract(F, 'impl FunctionCompiler<\'_>::fn compile_num_binary', wrap=('impl FunctionCompiler {', '}'),
